@@ -20,8 +20,7 @@ Proof.
   - destruct (c mod 10 =? 0) eqn:E.
     + apply Z.eqb_eq in E. apply IH in H. destruct H as [H1 H2]. split; [lia|].
       replace (n' - n) with ((n' - (n + 1)) + 1) by lia. rewrite pow10_succ by lia.
-      pose proof (Z.div_mod c 10 ltac:(lia)) as Hdm. rewrite <- Z.mul_assoc, (Z.mul_comm _ 10), Z.mul_assoc.
-      rewrite <- H2. lia.
+      pose proof (Z.div_mod c 10 ltac:(lia)) as Hdm. rewrite Z.mul_assoc, <- H2. lia.
     + inversion H; subst. split; [lia|]. rewrite Z.sub_diag. cbn. lia.
 Qed.
 
@@ -48,6 +47,9 @@ Qed.
 (* creditAmountToBasketCoin                                            *)
 (* ------------------------------------------------------------------ *)
 
+Lemma Ok_inj {A} (x y : A) : Ok x = Ok y -> x = y.
+Proof. congruence. Qed.
+
 Lemma zsum2 x y : zsum [x; y] = x + y.
 Proof. unfold zsum. cbn [fold_left]. lia. Qed.
 
@@ -61,7 +63,7 @@ Proof.
   unfold mul_exact, mul_ctx, bind. cbn [dneg dcoef dexp xorb].
   destruct (set_exponent _ _) as [d0|] eqn:E0; [|discriminate].
   apply set_exponent_inv in E0. cbn [dneg dcoef dexp] in E0. rewrite zsum2 in E0.
-  destruct E0 as (Hn0 & Hc0 & He0 & _ & _). rewrite Z.mul_1_l in Hc0.
+  destruct E0 as (Hn0 & Hc0 & He0 & _ & _). rewrite Z.mul_1_l in Hc0. assert (Hn0' : dneg d0 = dneg amt) by (rewrite Hn0; destruct (dneg amt); reflexivity).
   unfold round34.
   destruct (negb (is_zero d0) && _); [discriminate|].
   destruct (num_digits (dcoef d0) - precision128 >? 0) eqn:Ed.
@@ -83,8 +85,8 @@ Lemma tokens_units amt t z :
   mul_exact (mkDec false 1 P) amt = Ok t -> big_int t = Ok z -> z = U amt.
 Proof.
   intros Hc Hn He Hm Hb. apply mul_exact_pow6 in Hm. destruct Hm as [-> _].
-  rewrite Hn in Hb. rewrite big_int_nonneg_exp in Hb by lia. inversion Hb.
-  unfold U, units, dint. rewrite Hn. f_equal. f_equal. lia.
+  rewrite Hn in Hb. rewrite big_int_nonneg_exp in Hb by (unfold P in *; lia). apply Ok_inj in Hb. subst z.
+  unfold U, units, dint. rewrite Hn, (Z.add_comm P). reflexivity.
 Qed.
 
 (* and they exist whenever the coefficient has at most 34 digits *)
